@@ -53,6 +53,12 @@ def build(tstep, method):
     ss.add('PV', dict(idx='G1', bus=1, p0=p['P'], v0=p['V1'], Sn=100.0, Vn=20.0, pmax=99, pmin=-99, qmax=99, qmin=-99))
     ss.add('Line', dict(idx='L1', bus1=1, bus2=2, r=0.0, x=p['x1'], b=0.0, Vn1=20.0, Vn2=20.0, Sn=100.0))
     ss.add('Line', dict(idx='L2', bus1=1, bus2=2, r=0.0, x=p['x2'], b=0.0, Vn1=20.0, Vn2=20.0, Sn=100.0))
+    if p.get('x3'):
+        # a third parallel line that is switched at the SAME instants as L2 (two simultaneous switchings)
+        ss.add('Line', dict(idx='L3', bus1=1, bus2=2, r=0.0, x=p['x3'], b=0.0, Vn1=20.0, Vn2=20.0, Sn=100.0))
+        ss.add('Toggle', dict(model='Line', dev='L3', t=p['t_trip']))
+        if p['t_close'] > 0:
+            ss.add('Toggle', dict(model='Line', dev='L3', t=p['t_close']))
     ss.add('GENCLS', dict(idx='M1', bus=1, gen='G1', Sn=p.get('Sn', 100.0), Vn=20.0, M=p['M'], D=p['D'], xd1=p['xd1'], ra=0.0, fn=60.0))
     ss.add('Toggle', dict(model='Line', dev='L2', t=p['t_trip']))
     if p['t_close'] > 0:
@@ -73,7 +79,10 @@ if not ok:
 V1 = ss.Bus.v.v[0] * cmath.exp(1j * ss.Bus.a.v[0])
 Vinf = p['Vinf']
 def xline(on2):
-    return (p['x1'] * p['x2'] / (p['x1'] + p['x2'])) if on2 else p['x1']
+    y = 1.0 / p['x1']
+    if on2:
+        y += 1.0 / p['x2'] + (1.0 / p['x3'] if p.get('x3') else 0.0)
+    return 1.0 / y
 I = (V1 - Vinf) / (1j * xline(True))               # current from the machine bus into the network
 # machine data are given on the machine rating Sn; the network is on the 100 MVA system base
 kS = p.get('Sn', 100.0) / 100.0
@@ -102,6 +111,28 @@ def reference(ts):
 errs = []
 for k in (1, 2, 4):
     ss, ok = build(1/30/k, p['method'])
+    rejected = [0]
+    if p.get('reject'):
+        # injected fault: the first attempt of a few steps in the middle of the run is made to fail (iteration limit 0 for
+        # that one call), so that the integrator has to reject the step, shrink it and try again from the SAME state
+        nst = p['tf'] * 30 * k
+        at = set(max(2, int(fr * nst)) for fr in p['reject'])
+        calls = [0]
+        orig = ss.TDS.itm_step
+        def sabotaged():
+            calls[0] += 1
+            if calls[0] in at:
+                mi = ss.TDS.config.max_iter
+                ss.TDS.config.max_iter = 0
+                try:
+                    okk = orig()
+                finally:
+                    ss.TDS.config.max_iter = mi
+                if not okk:
+                    rejected[0] += 1
+                return okk
+            return orig()
+        ss.TDS.itm_step = sabotaged
     with contextlib.redirect_stdout(sink):
         if p.get('M_alter'):
             ss.TDS.init()
@@ -114,7 +145,7 @@ for k in (1, 2, 4):
     e_d = max(abs(xs[i, d_addr] - ref[t][0]) for i, t in enumerate(ts) if t in ref)
     e_w = max(abs(xs[i, w_addr] - ref[t][1]) for i, t in enumerate(ts) if t in ref)
     errs.append({'h': 1/30/k, 'done': bool(done), 'err_delta': float(e_d), 'err_omega': float(e_w), 'n': len(ts),
-                 'delta0_andes': float(xs[0, d_addr])})
+                 'delta0_andes': float(xs[0, d_addr]), 'rejected': rejected[0]})
 swing = max(abs(v[0] - delta0) for v in ref.values())
 out = {'errs': errs, 'delta0_ref': delta0, 'E': Emag, 'Pm': float(Pm), 'swing': float(swing),
        'vf0_andes': float(ss.GENCLS.vf0.v[0]), 'tm0_andes': float(ss.GENCLS.tm0.v[0])}
@@ -234,7 +265,9 @@ def gen_smib(rng):
     return {'Sn': Sn, 'M_alter': (round(M * 100.0 / Sn * rng.choice([0.6, 1.5]), 3) if rng.random() < 0.3 else None),
             'M': round(M * 100.0 / Sn, 3), 'D': rng.choice([0.0, 0.0, 1.0, 4.0]) * 100.0 / Sn, 'xd1': round(rng.uniform(0.15, 0.4) * Sn / 100.0, 4),
             'x1': x1, 'x2': x2, 'P': round(rng.uniform(0.3, 0.9), 2), 'V1': rng.choice([1.0, 1.02, 1.05]), 'Vinf': 1.0,
-            't_trip': t_trip, 't_close': t_close, 'tf': 2.0, 'method': rng.choice(['trapezoid', 'trapezoid', 'backeuler'])}
+            't_trip': t_trip, 't_close': t_close, 'tf': 2.0, 'method': rng.choice(['trapezoid', 'trapezoid', 'backeuler']),
+            'x3': (round(rng.uniform(0.3, 0.9), 3) if rng.random() < 0.3 else None),
+            'reject': ([round(rng.uniform(0.15, 0.9), 3) for _ in range(rng.choice([1, 2, 3]))] if rng.random() < 0.4 else None)}
 
 
 def run(ctx):
@@ -262,6 +295,11 @@ def run(ctx):
         if script is SMIB:
             ctx.count('smib_cases')
             e = r['errs']
+            if spec.get('x3'):
+                ctx.count('smib_cases_with_two_simultaneous_switchings')
+            if spec.get('reject'):
+                ctx.count('smib_cases_with_injected_step_rejections')
+                ctx.count('smib_rejected_steps', sum(x.get('rejected', 0) for x in e))
             if not all(x['done'] for x in e):
                 ctx.oracle_fail('smib-not-simulated', 'a stable single-machine case was not simulated to the end', spec)
                 continue
